@@ -1,0 +1,466 @@
+//! Verification hook (compiled only with `--cfg quadlet_rs_verif`).
+//!
+//! `quadlet-rs --verif-driver` reads one operation per line from stdin (fields separated by
+//! tabs, every string field is `x` followed by the hex encoding of its UTF-8 bytes), calls the
+//! real functions of this crate in-process and prints one canonical answer line per operation.
+//! Every call runs under `catch_unwind`; a panic is reported as the answer `panic`.
+use std::collections::HashMap;
+use std::io::{self, BufRead, Write};
+use std::panic;
+use std::path::PathBuf;
+
+use crate::quadlet::*;
+use crate::systemd_unit::*;
+
+fn hexd_bytes(s: &str) -> Vec<u8> {
+    let b = s.as_bytes();
+    let mut out = Vec::with_capacity(b.len() / 2);
+    let mut i = 0;
+    while i + 1 < b.len() {
+        out.push(u8::from_str_radix(std::str::from_utf8(&b[i..i + 2]).unwrap(), 16).unwrap());
+        i += 2;
+    }
+    out
+}
+
+fn hexd(s: &str) -> String {
+    String::from_utf8(hexd_bytes(&s[1..])).unwrap()
+}
+
+fn hexe_bytes(b: &[u8]) -> String {
+    let mut s = String::with_capacity(b.len() * 2 + 1);
+    s.push('x');
+    for b in b {
+        s.push_str(&format!("{:02x}", b));
+    }
+    s
+}
+
+fn hexe(s: &str) -> String {
+    hexe_bytes(s.as_bytes())
+}
+
+fn dump_unit(u: &SystemdUnit) -> String {
+    let mut out: Vec<String> = Vec::new();
+    for (section, entries) in &u.sections {
+        out.push(format!("S{}", hexe(section)));
+        for (k, v) in &entries.data {
+            out.push(format!("K{}", hexe(k)));
+            out.push(format!("V{}", hexe(v.raw())));
+        }
+    }
+    out.join(" ")
+}
+
+fn err_class<E: std::fmt::Debug>(e: &E) -> String {
+    let d = format!("{e:?}");
+    d.chars()
+        .take_while(|c| c.is_alphanumeric() || *c == '_')
+        .collect()
+}
+
+fn opt(o: Option<String>) -> String {
+    match o {
+        Some(s) => format!("some {}", hexe(&s)),
+        None => "none".to_string(),
+    }
+}
+
+fn list(l: Vec<String>) -> String {
+    let v: Vec<String> = l.iter().map(|s| hexe(s)).collect();
+    format!("[{}]", v.join(" "))
+}
+
+fn unit_file_from(path: &str, text: &str) -> Result<SystemdUnitFile, crate::systemd_unit::Error> {
+    let unit = SystemdUnit::load_from_str(text)?;
+    let mut f = SystemdUnitFile::new();
+    f.path = PathBuf::from(path);
+    *std::ops::DerefMut::deref_mut(&mut f) = unit;
+    Ok(f)
+}
+
+/// script of multimap operations followed by queries; answers are joined by ` | `
+fn run_unit_script(f: &[&str]) -> String {
+    let mut u = SystemdUnit::new();
+    let mut out: Vec<String> = Vec::new();
+    let mut i = 1;
+    let a = |i: usize| hexd(f[i]);
+    while i < f.len() {
+        let op = f[i];
+        match op {
+            "load" => {
+                match SystemdUnit::load_from_str(&a(i + 1)) {
+                    Ok(x) => u = x,
+                    Err(e) => return format!("err {}", err_class(&e)),
+                }
+                i += 2;
+            }
+            "add" => {
+                u.add(a(i + 1), a(i + 2), &a(i + 3));
+                i += 4;
+            }
+            "addraw" => {
+                if let Err(e) = u.add_raw(a(i + 1), a(i + 2), &a(i + 3)) {
+                    out.push(format!("err {}", err_class(&e)));
+                }
+                i += 4;
+            }
+            "set" => {
+                u.set(a(i + 1), a(i + 2), &a(i + 3));
+                i += 4;
+            }
+            "setraw" => {
+                if let Err(e) = u.set_raw(a(i + 1), a(i + 2), &a(i + 3)) {
+                    out.push(format!("err {}", err_class(&e)));
+                }
+                i += 4;
+            }
+            "prepend" => {
+                u.prepend(a(i + 1), a(i + 2), &a(i + 3));
+                i += 4;
+            }
+            "rename" => {
+                u.rename_section(a(i + 1), a(i + 2));
+                i += 3;
+            }
+            "merge" => {
+                match SystemdUnit::load_from_str(&a(i + 1)) {
+                    Ok(x) => u.merge_from(&x),
+                    Err(e) => return format!("err {}", err_class(&e)),
+                }
+                i += 2;
+            }
+            "lookup" => {
+                out.push(opt(u.lookup(&a(i + 1), &a(i + 2))));
+                i += 3;
+            }
+            "lookup_last" => {
+                out.push(opt(u.lookup_last(&a(i + 1), &a(i + 2))));
+                i += 3;
+            }
+            "lookup_last_raw" => {
+                out.push(opt(u
+                    .lookup_last_value(&a(i + 1), &a(i + 2))
+                    .map(|v| v.raw().clone())));
+                i += 3;
+            }
+            "lookup_all" => {
+                out.push(list(u.lookup_all(&a(i + 1), &a(i + 2))));
+                i += 3;
+            }
+            "lookup_all_raw" => {
+                out.push(list(
+                    u.lookup_all_values(&a(i + 1), &a(i + 2))
+                        .iter()
+                        .map(|v| v.raw().clone())
+                        .collect(),
+                ));
+                i += 3;
+            }
+            "history" => {
+                out.push(list(
+                    u.lookup_all_values_raw(&a(i + 1), &a(i + 2))
+                        .map(|v| v.raw().clone())
+                        .collect(),
+                ));
+                i += 3;
+            }
+            "lookup_all_args" => {
+                out.push(list(u.lookup_all_args(&a(i + 1), &a(i + 2))));
+                i += 3;
+            }
+            "lookup_all_strv" => {
+                out.push(list(u.lookup_all_strv(&a(i + 1), &a(i + 2))));
+                i += 3;
+            }
+            "lookup_all_key_val" => {
+                let m: HashMap<String, String> = u.lookup_all_key_val(&a(i + 1), &a(i + 2));
+                let mut kv: Vec<(String, String)> = m.into_iter().collect();
+                kv.sort();
+                out.push(list(
+                    kv.into_iter().flat_map(|(k, v)| [k, v]).collect(),
+                ));
+                i += 3;
+            }
+            "lookup_bool" => {
+                out.push(match u.lookup_bool(&a(i + 1), &a(i + 2)) {
+                    Some(b) => format!("some {b}"),
+                    None => "none".into(),
+                });
+                i += 3;
+            }
+            "has_key" => {
+                out.push(format!("{}", u.has_key(&a(i + 1), &a(i + 2))));
+                i += 3;
+            }
+            "has_section" => {
+                out.push(format!("{}", u.has_section(&a(i + 1))));
+                i += 2;
+            }
+            "len" => {
+                out.push(format!("{}", u.len()));
+                i += 1;
+            }
+            "to_string" => {
+                out.push(hexe(&u.to_string()));
+                i += 1;
+            }
+            "write_to" => {
+                let mut buf: Vec<u8> = Vec::new();
+                match u.write_to(&mut buf) {
+                    Ok(()) => out.push(hexe_bytes(&buf)),
+                    Err(_) => out.push("err io".into()),
+                }
+                i += 1;
+            }
+            "dump" => {
+                out.push(dump_unit(&u));
+                i += 1;
+            }
+            _ => return "bad-op".into(),
+        }
+    }
+    format!("ok {}", out.join(" | "))
+}
+
+/// `convert <is_user> <order: comma separated indices> (<path> <text>)*`
+/// builds the name table from all given units with the real constructors and runs the real
+/// converters in the given order against that shared table (the order is the caller's choice,
+/// no sorting and no error policy here: those live in `process` and are only run for real).
+fn run_convert(f: &[&str]) -> String {
+    let is_user = f[1] == "1";
+    let order: Vec<usize> = if f[2] == "-" {
+        Vec::new()
+    } else {
+        f[2].split(',').map(|s| s.parse().unwrap()).collect()
+    };
+    let mut quadlets: Vec<Option<QuadletUnitFile>> = Vec::new();
+    let mut loaderr: Vec<String> = Vec::new();
+    let mut i = 3;
+    while i + 1 < f.len() {
+        let path = hexd(f[i]);
+        let text = hexd(f[i + 1]);
+        match unit_file_from(&path, &text) {
+            Ok(uf) => match QuadletUnitFile::from_unit_file(uf) {
+                Ok(q) => {
+                    quadlets.push(Some(q));
+                    loaderr.push(String::new());
+                }
+                Err(e) => {
+                    quadlets.push(None);
+                    loaderr.push(format!("loaderr {}", err_class(&e)));
+                }
+            },
+            Err(e) => {
+                quadlets.push(None);
+                loaderr.push(format!("loaderr {}", err_class(&e)));
+            }
+        }
+        i += 2;
+    }
+    let mut map = UnitsInfoMap::from_quadlet_units(quadlets.iter().flatten().cloned().collect());
+    let mut out: Vec<String> = Vec::new();
+    for idx in order {
+        let q = match quadlets.get(idx) {
+            Some(Some(q)) => q,
+            _ => {
+                out.push(loaderr.get(idx).cloned().unwrap_or("bad-index".into()));
+                continue;
+            }
+        };
+        let unit = &q.unit_file;
+        let r = match q.quadlet_type {
+            QuadletType::Build => convert::from_build_unit(unit, &mut map, is_user),
+            QuadletType::Container => convert::from_container_unit(unit, &mut map, is_user),
+            QuadletType::Image => convert::from_image_unit(unit, &mut map, is_user),
+            QuadletType::Kube => convert::from_kube_unit(unit, &mut map, is_user),
+            QuadletType::Network => convert::from_network_unit(unit, &mut map, is_user),
+            QuadletType::Pod => convert::from_pod_unit(unit, &mut map, is_user),
+            QuadletType::Volume => convert::from_volume_unit(unit, &mut map, is_user),
+        };
+        match r {
+            Ok(svc) => out.push(format!(
+                "svc {} {}",
+                hexe(svc.path().to_str()),
+                dump_unit(&svc)
+            )),
+            Err(e) => out.push(format!(
+                "err {} {}",
+                err_class(&e),
+                hexe(&e.to_string())
+            )),
+        }
+    }
+    format!("ok {}", out.join(" | "))
+}
+
+/// `process <dry_run> <is_user> <out dir> <QUADLET_UNIT_DIRS value>`: the real `process`
+fn run_process(f: &[&str]) -> String {
+    let cfg = crate::CliOptions {
+        dry_run: f[1] == "1",
+        is_user: f[2] == "1",
+        no_kmsg: true,
+        output_path: PathBuf::from(hexd(f[3])),
+        verbose: false,
+        version: false,
+    };
+    std::env::set_var("QUADLET_UNIT_DIRS", hexd(f[4]));
+    let errs = crate::process(cfg);
+    let v: Vec<String> = errs
+        .iter()
+        .map(|e| format!("{}:{}", err_class(e), hexe(&e.to_string())))
+        .collect();
+    format!("ok {} {}", errs.len(), v.join(" "))
+}
+
+fn run_op(f: &[&str]) -> String {
+    let a = |i: usize| hexd(f[i]);
+    match f[0] {
+        "quote_words" => {
+            let ws: Vec<String> = (1..f.len()).map(|i| a(i)).collect();
+            format!("ok {}", hexe(&quote_words(ws.iter().map(|s| s.as_str()))))
+        }
+        "quote_value" => format!("ok {}", hexe(&quote_value(&a(1)))),
+        "unquote" => match unquote_value(&a(1)) {
+            Ok(s) => format!("ok {}", hexe(&s)),
+            Err(_) => "err".to_string(),
+        },
+        "split_word" => {
+            let s = a(1);
+            format!("ok {}", list(SplitWord::new(&s).collect()))
+        }
+        "split_strv" => {
+            let s = a(1);
+            format!("ok {}", list(SplitStrv::new(&s).collect()))
+        }
+        "parse" => match SystemdUnit::load_from_str(&a(1)) {
+            Ok(u) => format!("ok {}", dump_unit(&u)),
+            Err(crate::systemd_unit::Error::Unit(e)) => format!("err {} {}", e.line, e.col),
+            Err(e) => format!("err {}", err_class(&e)),
+        },
+        "unit" => run_unit_script(f),
+        "clean" => format!("ok {}", hexe(PathBuf::from(a(1)).cleaned().to_str())),
+        "absolute_from" => format!(
+            "ok {}",
+            hexe(
+                PathBuf::from(a(2))
+                    .absolute_from(&PathBuf::from(a(1)))
+                    .to_str()
+            )
+        ),
+        "absolute_from_unit" => {
+            let mut uf = SystemdUnitFile::new();
+            uf.path = PathBuf::from(a(1));
+            format!(
+                "ok {}",
+                hexe(PathBuf::from(a(2)).absolute_from_unit(&uf).to_str())
+            )
+        }
+        "specifier" => format!(
+            "ok {}",
+            PathBuf::from(a(1)).starts_with_systemd_specifier()
+        ),
+        "template_parts" => {
+            let p = PathBuf::from(a(1));
+            let (b, i) = p.file_name_template_parts();
+            format!(
+                "ok {} {}",
+                opt(b.map(|s| s.to_string())),
+                opt(i.map(|s| s.to_string()))
+            )
+        }
+        "components" => {
+            let p = PathBuf::from(a(1));
+            format!(
+                "ok {}",
+                list(
+                    p.components()
+                        .map(|c| c.as_os_str().to_str().unwrap().to_string())
+                        .collect()
+                )
+            )
+        }
+        "port_range" => format!("ok {}", convert::verif_is_port_range(&a(1))),
+        "mount_type" => match convert::verif_find_mount_type(&a(1)) {
+            Ok((t, rest)) => format!("ok {} {}", hexe(&t), list(rest)),
+            Err(e) => format!("err {}", err_class(&e)),
+        },
+        "parse_bool" => match parse_bool(&a(1)) {
+            Ok(b) => format!("ok {b}"),
+            Err(_) => "err".into(),
+        },
+        "convert" => run_convert(f),
+        "process" => run_process(f),
+        "enable" => {
+            // `enable <out dir> <service path> <service text>`: the real enable_service_file
+            match unit_file_from(&a(2), &a(3)) {
+                Ok(svc) => {
+                    crate::enable_service_file(&PathBuf::from(a(1)), &svc);
+                    "ok".into()
+                }
+                Err(e) => format!("err {}", err_class(&e)),
+            }
+        }
+        "walk" => {
+            // `walk <root> <resolved users dir> <rootless> <filter: none|user|nonnumeric>`
+            let dirs = iterators::verif_walk(
+                PathBuf::from(a(1)),
+                PathBuf::from(a(2)),
+                f[3] == "1",
+                f[4],
+            );
+            format!(
+                "ok {}",
+                list(dirs.iter().map(|p| p.to_str().to_string()).collect())
+            )
+        }
+        "search_dirs" => {
+            // `search_dirs <rootless>`: the real system/rootless directory list of this process
+            let dirs = UnitSearchDirs::from_env_or_system()
+                .rootless(f[1] == "1")
+                .recursive(true)
+                .build();
+            format!(
+                "ok {}",
+                list(dirs.dirs().iter().map(|p| p.to_str().to_string()).collect())
+            )
+        }
+        "service_name" => match unit_file_from(&a(1), &a(2)) {
+            Ok(uf) => match QuadletUnitFile::from_unit_file(uf) {
+                Ok(q) => format!(
+                    "ok {} {} {}",
+                    hexe(&q.service_name),
+                    hexe(&q.resource_name),
+                    hexe(q.get_service_file_name().to_str().unwrap_or(""))
+                ),
+                Err(e) => format!("err {}", err_class(&e)),
+            },
+            Err(e) => format!("err {}", err_class(&e)),
+        },
+        _ => "bad-op".to_string(),
+    }
+}
+
+pub(crate) fn maybe_run() -> bool {
+    let args: Vec<String> = std::env::args().collect();
+    if args.get(1).map(|s| s.as_str()) != Some("--verif-driver") {
+        return false;
+    }
+    panic::set_hook(Box::new(|_| {}));
+    let stdin = io::stdin();
+    let stdout = io::stdout();
+    let mut out = io::BufWriter::new(stdout.lock());
+    for line in stdin.lock().lines() {
+        let line = line.unwrap();
+        let f: Vec<&str> = line.split('\t').collect();
+        let res = panic::catch_unwind(|| run_op(&f));
+        match res {
+            Ok(s) => writeln!(out, "{}", s).unwrap(),
+            Err(_) => writeln!(out, "panic").unwrap(),
+        }
+        if f[0] == "process" || f[0] == "enable" {
+            out.flush().unwrap();
+        }
+    }
+    true
+}
